@@ -79,6 +79,24 @@ SPECS = {
         1200,
         60000,
     ),
+    "C02": _rt(
+        "Termination cancels every coroutine payload and finishes its cleanup first",
+        "one runtime per seed: 0-7 payloads in seeded states (sleeping, spinning, blocked, just adopted, adopted by other payloads; sync / shielded async cleanup), one termination trigger "
+        "(failure per flavour, two failures, SIGINT, stop(), shutdown() from a thread or a thread payload, payload-raised KeyboardInterrupt) at a seeded or marker-aligned instant; "
+        "non-trivial = at least one coroutine payload was running when the trigger fired; "
+        "distinct = distinct (trigger, multiset of running payload states, how the run call ended, schedule-trace hash)",
+        1200,
+        60000,
+    ),
+    "C03": _rt(
+        "Every adopted payload and every service is started exactly once",
+        "one runtime per seed: 1-9 payloads/services per flavour with seeded argument tuples/dicts, submitted before start, during the first polling cycles and long after, "
+        "from outside threads and from payloads of every flavour, services kept or dropped, >= 3 polling cycles before the quiescence mark, optionally a shutdown racing with the submissions "
+        "(thorough: also submissions inside the launch window); non-trivial = the run reached its quiescence mark with the runtime still up, or an adoption overlapped a stop in progress; "
+        "distinct = distinct (mode, multiset of (flavour, path, #args, #kwargs), how the run call ended, schedule-trace hash)",
+        1200,
+        60000,
+    ),
     "C09": _pl(
         "Periodic services act once per interval",
         "one world per seed: a shipped periodic service over recording pools, a generated timed environment script "
